@@ -23,7 +23,9 @@ import (
 //   req-on-empty-intersection    a CAP REQ line although W' ∩ A is empty
 //   has-capability-mismatch      HasCapability(c) != sign of c in the latest ACK mentioning c
 //   no-cap-end-after-<event>     no CAP END on the wire after <event> (empty-intersection, nak,
-//                                ack-without-sasl, 903, 904, 908)
+//                                ack-without-sasl, 903, 904, 908; late-ack-without-sasl and late-nak:
+//                                the same for ACK / NAK lines that arrive after the negotiation has
+//                                ended - the statement makes no exception for them)
 //   authenticate-without-sasl    an AUTHENTICATE line although SASL is not configured
 //   authenticate-before-sasl-ack AUTHENTICATE <mech> before the server's ACK that contains sasl
 //   authenticate-without-new-sasl-ack  a further AUTHENTICATE <mech> without a further ACK naming sasl
@@ -37,8 +39,6 @@ import (
 //   * how many CAP END lines are sent (repeats are not forbidden),
 //   * whether a CAP END precedes the ACK of sasl when the ACK arrives in several lines,
 //   * the byte length of each CAP REQ line, duplicates / order of names inside the REQ lines,
-//   * whether a CAP END follows the late unsolicited "ACK :-a" (the negotiation is over by
-//     then; "ends negotiation" presupposes one in progress),
 //   * whether the payload is sent at all after "AUTHENTICATE +" (the statement only says
 //     "only after"); without it the reactive server simply never sends 903/904.
 
@@ -281,9 +281,8 @@ func (m *c19srv) react(idx int, l string) {
 		case "ack-minus":
 			ls := []c19line{m.ack(names)}
 			if m.p.Early && m.lateMinusAt < 0 {
-				// no demand: see the header (a CAP END is due for the ACK before it anyway)
 				m.lateMinusAt = -2
-				ls = append(ls, c19line{text: ":srv CAP me ACK :-a"})
+				ls = append(ls, c19line{text: ":srv CAP me ACK :-a", demand: "ack-without-sasl"})
 			}
 			m.send(ls)
 		default:
@@ -390,7 +389,7 @@ func c19Run(p *c19Script) (*c19Result, *vx.Outcome) {
 		m.pump()
 		if p.Reply == "ack-minus" && m.lateMinusAt == -1 {
 			m.lateMinusAt = len(s.Wire())
-			m.feed(":srv CAP me ACK :-a")
+			m.send([]c19line{{text: ":srv CAP me ACK :-a", demand: "late-ack-without-sasl"}})
 			m.pump()
 		}
 		if p.Plus == "at-end" {
@@ -398,8 +397,17 @@ func c19Run(p *c19Script) (*c19Result, *vx.Outcome) {
 			m.pump()
 		}
 		// late CAP lines: an ACK changes what is held, a NAK changes nothing (feed compares HasCapability after each)
+		// Each of them is "a NAK" resp. "an ACK that does not start SASL": a CAP END is due after it as well.
 		for _, l := range p.Late {
-			m.feed(":srv CAP me " + l)
+			cl := c19line{text: ":srv CAP me " + l, demand: "late-nak"}
+			if strings.HasPrefix(l, "ACK :") {
+				cl = m.ack(strings.Fields(strings.TrimPrefix(l, "ACK :")))
+				cl.text = ":srv CAP me " + l
+				if cl.demand != "" {
+					cl.demand = "late-ack-without-sasl"
+				}
+			}
+			m.send([]c19line{cl})
 			m.pump()
 		}
 		m.syncTranscript()
@@ -674,7 +682,7 @@ func c19Large(n, l int, mixed bool, saslMech string, extraAdv, extraWanted int, 
 func init() {
 	Register(&Prop{
 		ID:   "C19",
-		Rule: "family small-universe: full product wanted W ⊆ {a,b,zz,sasl} × SASL {none, PLAIN(u,p), EXTERNAL(\"\")} × advertised A ⊆ {a,b,sasl,zz} × reply to CAP REQ {ACK all, NAK, ACK in two lines, ACK then an unsolicited ACK :-a, ACK in reversed order} × SASL continuation {AUTHENTICATE + then 903; + then 904; 908 then 904; 904 at once} = 6144 scripts (thorough: × server lines one per segment / one segment per reaction × late / immediate ACK :-a × advertised order forward / reversed), one session each against a reactive model server; family unsolicited-plus: W × SASL {none, PLAIN, EXTERNAL, a mechanism whose Start fails} × A × reply {ACK, NAK, ACK in two lines} × an AUTHENTICATE + nobody asked for {before the reply to CAP REQ (after LS when nothing is requested), after the negotiation}; family late-lines: after the negotiation every sequence of up to 2 (thorough 3) further server lines over {ACK :-a, ACK :a, NAK :a, NAK :-a, NAK :a zz, ACK :-a b, NAK :-a -b, ACK :-zz, ACK :-sasl, NAK :-sasl}, HasCapability compared after each (W ∈ {{a,b},{a,b,zz,sasl}} quick, all 16 thorough); family large-sets: wanted = advertised sets of N capabilities with L-byte names (quick N ∈ {10,30,60}, L ∈ {10,40}; thorough N = 1..80, L ∈ {3..200} and mixed) × SASL × extra advertised / extra wanted names, every CAP REQ line ACKed (or NAKed); a case is one session; distinct = distinct (configuration, full client/server transcript)",
+		Rule: "family small-universe: full product wanted W ⊆ {a,b,zz,sasl} × SASL {none, PLAIN(u,p), EXTERNAL(\"\")} × advertised A ⊆ {a,b,sasl,zz} × reply to CAP REQ {ACK all, NAK, ACK in two lines, ACK then an unsolicited ACK :-a, ACK in reversed order} × SASL continuation {AUTHENTICATE + then 903; + then 904; 908 then 904; 904 at once} = 6144 scripts (thorough: × server lines one per segment / one segment per reaction × late / immediate ACK :-a × advertised order forward / reversed), one session each against a reactive model server; family unsolicited-plus: W × SASL {none, PLAIN, EXTERNAL, a mechanism whose Start fails} × A × reply {ACK, NAK, ACK in two lines} × an AUTHENTICATE + nobody asked for {before the reply to CAP REQ (after LS when nothing is requested), after the negotiation}; family late-lines: after the negotiation every sequence of up to 2 (thorough 3) further server lines over {ACK :-a, ACK :a, NAK :a, NAK :-a, NAK :a zz, ACK :-a b, NAK :-a -b, ACK :-zz, ACK :-sasl, NAK :-sasl}, HasCapability compared after each and a CAP END demanded after each (they are NAKs and ACKs that do not start SASL), after a completed SASL exchange and after one refused with 908 + 904 before the server asked for data (W ∈ {{a,b},{a,b,zz,sasl}} quick, all 16 thorough); family large-sets: wanted = advertised sets of N capabilities with L-byte names (quick N ∈ {10,30,60}, L ∈ {10,40}; thorough N = 1..80, L ∈ {3..200} and mixed) × SASL × extra advertised / extra wanted names, every CAP REQ line ACKed (or NAKed); a case is one session; distinct = distinct (configuration, full client/server transcript)",
 		Assumptions: []string{
 			"single-line CAP LS replies (CAP 3.1); multi-line LS (\"CAP * LS * :\") is outside the statement's quantifier",
 			"the server acknowledges exactly the names of the REQ line it answers (or a split of them); it never acknowledges names that were not requested except the scripted ACK :-a",
@@ -737,8 +745,14 @@ func init() {
 						for _, a := range allA {
 							for _, rep := range []string{"ack", "nak"} {
 								for _, late := range lateSeqs {
-									if !yield(&c19Script{Family: "late-lines", W: w, Sasl: mech, A: a, Reply: rep, Cont: "plus-903", Late: late}) {
-										return
+									// after a completed exchange, and after one the server refused before asking for data
+									for _, ct := range []string{"plus-903", "908-904"} {
+										if ct != "plus-903" && (mech == "none" || rep != "ack") {
+											continue
+										}
+										if !yield(&c19Script{Family: "late-lines", W: w, Sasl: mech, A: a, Reply: rep, Cont: ct, Late: late}) {
+											return
+										}
 									}
 								}
 							}
